@@ -43,10 +43,8 @@ func (c *azCases) add(sc azScenario, obs []azObs) {
 	c.descs = append(c.descs, d)
 }
 func (c *azCases) write(res *Result, outDir, name string) {
-	cf := NewCasesFile("Base Term Expr Datalog Authz Corr")
-	cf.Raw("Definition cases : list authz_case := [\n  " + joinLines(c.lines) + "].\n")
-	cf.Raw("Definition M := Eval vm_compute in mismatches (authz_ok (fun _ _ => None)) cases.\nPrint M.\n")
-	cf.WriteTo(outDir, name)
+	prop := strings.TrimSuffix(strings.TrimPrefix(name, "Cases_"), ".v")
+	WriteShards(res, outDir, prop, "Base Term Expr Datalog Authz Corr", "", "authz_case", "authz_ok (fun _ _ => None)", c.lines, 400)
 	res.ModelCases = len(c.lines)
 	res.CaseDescs = c.descs
 }
